@@ -320,6 +320,11 @@ func (i *IPFS) BlockPut(ctx context.Context, n *api.NodeWithMeta) error {
 	i.Puts = append(i.Puts, &cp)
 	return nil
 }
+
+// Lock / Unlock guard direct access to the exported tables from a test.
+func (i *IPFS) Lock()   { i.mu.Lock() }
+func (i *IPFS) Unlock() { i.mu.Unlock() }
+
 func (i *IPFS) BlockGet(ctx context.Context, c cid.Cid) ([]byte, error) {
 	i.mu.Lock()
 	defer i.mu.Unlock()
@@ -480,6 +485,7 @@ type ClusterOpts struct {
 	Host           host.Host             // use this host instead of creating one
 	Consensus      ipfscluster.Consensus // use this consensus component instead of the fake
 	DHT            bool                  // give the cluster a real dual DHT (needed by Join)
+	ThroughJSON    bool                  // pass the final cluster configuration through ToJSON, LoadJSON and ApplyEnvVars
 	ExtraInformers []string              // names of additional informers (same TTL) given to the cluster
 }
 
@@ -542,6 +548,27 @@ func NewClusterNoWait(o ClusterOpts) *ClusterFixture {
 	cfg.ReplicationFactorMax = -1
 	if o.Mutate != nil {
 		o.Mutate(cfg)
+	}
+	if o.ThroughJSON {
+		// the daemon's route: the cluster section as JSON, LoadJSON, then
+		// the environment applied on top
+		raw, err := cfg.ToJSON()
+		if err != nil {
+			panic(err)
+		}
+		cfg2 := &ipfscluster.Config{}
+		if err := cfg2.LoadJSON(raw); err != nil {
+			panic(err)
+		}
+		if err := cfg2.ApplyEnvVars(); err != nil {
+			panic(err)
+		}
+		// what the section does not carry, or where zero means "default"
+		cfg2.MDNSInterval = cfg.MDNSInterval
+		cfg2.PeerstoreFile = cfg.PeerstoreFile
+		cfg2.Tracing = cfg.Tracing
+		cfg2.RPCPolicy = cfg.RPCPolicy
+		cfg = cfg2
 	}
 	f.Cfg = cfg
 	f.Cons = NewConsensus(o.Shared, h.ID())
